@@ -192,15 +192,43 @@ def source_region(world, draw, pi):
     return region_ref(world, draw, pi)
 
 
+def sub_selector(draw, rows, cols, r0, h, c0, w):
+    """the rectangle as a slice of a (larger or equal) slice: plate[base][a:b, c:d] (0-based, end-exclusive)"""
+    nr, nc = len(rows), len(cols)
+    rb0 = draw(st.integers(0, r0))
+    rb1 = draw(st.integers(r0 + h - 1, nr - 1))
+    cb0 = draw(st.integers(0, c0))
+    cb1 = draw(st.integers(c0 + w - 1, nc - 1))
+    base = rect_selector(draw, rows, cols, rb0, rb1 - rb0 + 1, cb0, cb1 - cb0 + 1)
+
+    def part(lo, n, total):
+        if n == 1 and draw(st.integers(0, 2)) == 0:
+            return lo
+        a = None if (lo == 0 and draw(st.booleans())) else lo
+        b = None if (lo + n == total and draw(st.booleans())) else lo + n
+        return {'a': a, 'b': b}
+    return {'t': 'sub', 'base': base, 'r': part(r0 - rb0, h, rb1 - rb0 + 1), 'c': part(c0 - cb0, w, cb1 - cb0 + 1)}
+
+
 def region_ref(world, draw, pi, want=None):
     """A reference to a region of plate pool[pi]: inline selector or (if available) a pooled slice object."""
     pe = world.pool[pi]
+    if want is not None and draw(st.integers(0, 7)) == 0:
+        r0, h, c0, w = want
+        return {'i': pi, 'sel': sub_selector(draw, pe.view['rows'], pe.view['cols'], r0, h, c0, w)}
     pooled = [i for i, e in enumerate(world.pool) if e.kind == 's' and e.meta['plate'] == pi]
     if want is None and pooled and draw(st.integers(0, 3)) == 0:
         return {'i': draw(st.sampled_from(pooled))}
     if want is not None:
         r0, h, c0, w = want
         return {'i': pi, 'sel': rect_selector(draw, pe.view['rows'], pe.view['cols'], r0, h, c0, w)}
+    if draw(st.integers(0, 9)) == 0:
+        nr, nc = pe.view['shape']
+        r0 = draw(st.integers(0, nr - 1))
+        h = draw(st.integers(1, nr - r0))
+        c0 = draw(st.integers(0, nc - 1))
+        w = draw(st.integers(1, nc - c0))
+        return {'i': pi, 'sel': sub_selector(draw, pe.view['rows'], pe.view['cols'], r0, h, c0, w)}
     return {'i': pi, 'sel': any_selector(draw, pe.view['rows'], pe.view['cols'])}
 
 
